@@ -105,7 +105,7 @@ def cli_args(rp, qp, op, mode, extra=(), cpus='3'):
 
 
 def run_world(world, mode=None, extra=None, extensions=None, directory=None, keep_result=False, cpus='3', in_child=None,
-              isolate=True):
+              isolate=True, out_name='o.xmap'):
     """Run the real Program on one world and return an Observation.
 
     Every run happens in its own forked child (isolate=True): a real `coma` invocation is a fresh process, so state that COMA keeps
@@ -113,15 +113,15 @@ def run_world(world, mode=None, extra=None, extensions=None, directory=None, kee
     that is the single-worker behaviour the stand-in pool models).  Objects that do not pickle (the returned rows, the 'row' events
     of sink.Rows) stay in the child; `in_child(obs)` is evaluated there and its picklable result is returned as obs.extra."""
     if isolate:
-        st, obs = core.run_isolated(_run_world_child, world, mode, extra, extensions, directory, keep_result, cpus, in_child)
+        st, obs = core.run_isolated(_run_world_child, world, mode, extra, extensions, directory, keep_result, cpus, in_child, out_name)
         if st != 'ok':
             raise RuntimeError('isolated run failed inside the harness: %s' % obs)
         return obs
-    return _run_world(world, mode, extra, extensions, directory, keep_result, cpus)
+    return _run_world(world, mode, extra, extensions, directory, keep_result, cpus, out_name)
 
 
-def _run_world_child(world, mode, extra, extensions, directory, keep_result, cpus, in_child):
-    obs = _run_world(world, mode, extra, extensions, directory, keep_result or in_child is not None, cpus)
+def _run_world_child(world, mode, extra, extensions, directory, keep_result, cpus, in_child, out_name='o.xmap'):
+    obs = _run_world(world, mode, extra, extensions, directory, keep_result or in_child is not None, cpus, out_name)
     if in_child is not None:
         obs.extra = in_child(obs)
     obs.result = None
@@ -130,17 +130,24 @@ def _run_world_child(world, mode, extra, extensions, directory, keep_result, cpu
     return obs
 
 
-def _run_world(world, mode=None, extra=None, extensions=None, directory=None, keep_result=False, cpus='3'):
+def output_names(out_name):
+    """main and additional file names for an -o value: <root>_1<ext> / <root>_2<ext> (os.path.splitext of the whole path)"""
+    root, ext = os.path.splitext(out_name)
+    return (('main', out_name), ('_1', root + '_1' + ext), ('_2', root + '_2' + ext))
+
+
+def _run_world(world, mode=None, extra=None, extensions=None, directory=None, keep_result=False, cpus='3', out_name='o.xmap'):
     """Run the real Program on one world in this process; returns an Observation."""
     from mc import sink
     d = directory or core.scratch_dir()
     mode = mode or world.get('mode', 'best')
     extra = list(world.get('args', [])) if extra is None else list(extra)
     rp, qp = write_world(d, world)
-    op = os.path.join(d, 'o.xmap')
-    for k in ('', '_1', '_2'):
+    op = os.path.join(d, out_name)
+    os.makedirs(os.path.dirname(op), exist_ok=True)
+    for k, name in output_names(out_name):
         try:
-            os.remove(os.path.join(d, 'o%s.xmap' % k))
+            os.remove(os.path.join(d, name))
         except OSError:
             pass
     obs = Observation()
@@ -172,7 +179,7 @@ def _run_world(world, mode=None, extra=None, extensions=None, directory=None, ke
                 except Exception:
                     pass
     gc.collect(0)
-    for k, name in (('main', 'o.xmap'), ('_1', 'o_1.xmap'), ('_2', 'o_2.xmap')):
+    for k, name in output_names(out_name):
         p = os.path.join(d, name)
         if os.path.exists(p):
             with open(p) as f:
@@ -183,32 +190,50 @@ def _run_world(world, mode=None, extra=None, extensions=None, directory=None, ke
     return obs
 
 
-def run_cli(world, mode, extra=(), cpus=1, directory=None, hashseed='0', timeout=300, keep_outputs=False):
+def run_cli(world, mode, extra=(), cpus=1, directory=None, hashseed='0', timeout=300, keep_outputs=False, out_name='c.xmap',
+            pipe=None, to_stdout=False):
+    # pipe: 'query' / 'reference' = that CMAP arrives on standard input (`-q /dev/stdin`, fed through a pipe: not seekable);
+    # to_stdout: no -o, the XMAP is what the process prints on standard output
     """The real entry point in a subprocess (real pathos pool).  Returns (returncode, stderr, files)."""
     d = directory or core.scratch_dir()
     rp, qp = write_world(d, world)
-    op = os.path.join(d, 'c.xmap')
-    for k in ('', '_1', '_2'):
+    op = os.path.join(d, out_name)
+    os.makedirs(os.path.dirname(op), exist_ok=True)
+    for k, name in output_names(out_name):
         if keep_outputs:        # a repetition of the same command: the files of the earlier run are still in place
             break
         try:
-            os.remove(os.path.join(d, 'c%s.xmap' % k))
+            os.remove(os.path.join(d, name))
         except OSError:
             pass
     env = dict(os.environ, PYTHONPATH=core.REPO, PYTHONHASHSEED=str(hashseed))
+    stdin_path = None
+    if pipe == 'query':
+        stdin_path, qp = qp, '/dev/stdin'
+    elif pipe == 'reference':
+        stdin_path, rp = rp, '/dev/stdin'
     cmd = [core.PYTHON, '-c', 'import sys; sys.path.insert(0, %r); from src.program import main; main()' % core.REPO] + \
-        ['-r', rp, '-q', qp, '-o', op, '-pb', '-c', str(cpus), '-oM', mode] + [str(x) for x in extra]
+        ['-r', rp, '-q', qp] + ([] if to_stdout else ['-o', op]) + ['-pb', '-c', str(cpus), '-oM', mode] + [str(x) for x in extra]
+    out = ''
     try:
-        p = subprocess.run(cmd, env=env, capture_output=True, text=True, timeout=timeout, cwd=d)
-        rc, err = p.returncode, p.stderr
+        if stdin_path is not None:
+            feeder = subprocess.Popen(['cat', stdin_path], stdout=subprocess.PIPE)
+            p = subprocess.run(cmd, env=env, stdin=feeder.stdout, capture_output=True, text=True, timeout=timeout, cwd=d)
+            feeder.stdout.close()
+            feeder.wait()
+        else:
+            p = subprocess.run(cmd, env=env, stdin=subprocess.DEVNULL, capture_output=True, text=True, timeout=timeout, cwd=d)
+        rc, err, out = p.returncode, p.stderr, p.stdout
     except subprocess.TimeoutExpired:
         rc, err = -9, 'timeout'
     files = {}
-    for k, name in (('main', 'c.xmap'), ('_1', 'c_1.xmap'), ('_2', 'c_2.xmap')):
+    for k, name in output_names(out_name):
         p_ = os.path.join(d, name)
         if os.path.exists(p_):
             with open(p_) as f:
                 files[k] = f.read()
+    if to_stdout:
+        files['main'] = out
     return rc, err, files
 
 
